@@ -1,8 +1,1052 @@
-//! C20 — not built yet.
+//! C20 — VTX playback is frame-accurate and independent of play() chunking.
+//! Real code: `vtx::player::Player<B>` over (a) a recording `AymBackend` implemented here (its call log
+//! and the buffers `play` fills are compared with the Lean model and the schedule spec for every single
+//! `play` call) and (b) the real `aym::AymPrecise` (bit-exact stream equality between chunkings);
+//! `vtx::Vtx::load` on files built here (header + literal-only LH5 stream) for the transposition.
 use crate::util::*;
+use aym::{AyMode, AymBackend, SoundChip, StereoSample};
+use std::cell::RefCell;
+use std::panic::{catch_unwind, AssertUnwindSafe};
+use vtx::player::Player;
 
-pub fn run(_o: &Opts) -> Report {
+#[derive(Clone, Copy, PartialEq, Eq, Debug)]
+enum Call {
+    W(u8, u8),
+    S,
+}
+
+#[derive(Default)]
+struct RecShared {
+    log: Vec<Call>,
+    samples: u64,
+    ctor: Option<(String, String, usize, usize)>,
+}
+
+thread_local! {
+    static REC: RefCell<RecShared> = RefCell::new(RecShared::default());
+}
+
+/// The recording backend. `Player` owns it privately, so the log lives in a thread-local.
+struct RecBackend;
+
+fn left_of(k: u64) -> f64 {
+    k as f64
+}
+fn right_of(k: u64) -> f64 {
+    -(k as f64) - 0.5
+}
+
+impl AymBackend for RecBackend {
+    type SoundSample = f64;
+    fn new(chip: SoundChip, mode: AyMode, frequency: usize, sample_rate: usize) -> Self {
+        REC.with(|r| {
+            let mut r = r.borrow_mut();
+            *r = RecShared::default();
+            r.ctor = Some((format!("{:?}", chip), format!("{:?}", mode), frequency, sample_rate));
+        });
+        RecBackend
+    }
+    fn write_register(&mut self, address: u8, value: u8) {
+        REC.with(|r| r.borrow_mut().log.push(Call::W(address, value)));
+    }
+    fn next_sample(&mut self) -> StereoSample<f64> {
+        let k = REC.with(|r| {
+            let mut r = r.borrow_mut();
+            r.log.push(Call::S);
+            r.samples += 1;
+            r.samples - 1
+        });
+        StereoSample { left: left_of(k), right: right_of(k) }
+    }
+}
+
+fn encode_calls(cs: &[Call]) -> String {
+    let mut toks: Vec<String> = vec![];
+    let mut pending = 0u64;
+    for c in cs {
+        match c {
+            Call::S => pending += 1,
+            Call::W(a, v) => {
+                if pending > 0 {
+                    toks.push(format!("s{:x}", pending));
+                    pending = 0;
+                }
+                toks.push(format!("w{:02x}{:02x}", a, v));
+            }
+        }
+    }
+    if pending > 0 {
+        toks.push(format!("s{:x}", pending));
+    }
+    if toks.is_empty() {
+        "-".into()
+    } else {
+        toks.join(",")
+    }
+}
+
+const MODES: [&str; 7] = ["Mono", "ABC", "ACB", "BAC", "BCA", "CAB", "CBA"];
+
+fn vtx_stereo(i: u8) -> vtx::Stereo {
+    match i {
+        0 => vtx::Stereo::Mono,
+        1 => vtx::Stereo::ABC,
+        2 => vtx::Stereo::ACB,
+        3 => vtx::Stereo::BAC,
+        4 => vtx::Stereo::BCA,
+        5 => vtx::Stereo::CAB,
+        _ => vtx::Stereo::CBA,
+    }
+}
+
+#[derive(Clone, Debug, PartialEq)]
+struct Case {
+    stereo: bool,
+    vs: u8,
+    ym: bool,
+    rate: usize,
+    pf: u8,
+    data: Vec<u8>,
+    chunks: Vec<usize>,
+}
+
+impl Case {
+    fn text(&self) -> String {
+        format!(
+            "play stereo={} vs={} ym={} rate={} pf={} data={} chunks={}",
+            self.stereo as u8,
+            self.vs,
+            self.ym as u8,
+            self.rate,
+            self.pf,
+            if self.data.is_empty() { "-".to_string() } else { hex(&self.data) },
+            self.chunks.iter().map(|c| c.to_string()).collect::<Vec<_>>().join(",")
+        )
+    }
+    fn parse(s: &str) -> Option<Case> {
+        let mut c = Case { stereo: false, vs: 0, ym: false, rate: 0, pf: 0, data: vec![], chunks: vec![] };
+        let mut it = s.split_whitespace();
+        if it.next()? != "play" {
+            return None;
+        }
+        for kv in it {
+            let (k, v) = kv.split_once('=')?;
+            match k {
+                "stereo" => c.stereo = v == "1",
+                "vs" => c.vs = v.parse().ok()?,
+                "ym" => c.ym = v == "1",
+                "rate" => c.rate = v.parse().ok()?,
+                "pf" => c.pf = v.parse().ok()?,
+                "data" => c.data = if v == "-" { vec![] } else { unhex(v) },
+                "chunks" => {
+                    c.chunks = v.split(',').filter(|x| !x.is_empty()).filter_map(|x| x.parse().ok()).collect()
+                }
+                _ => return None,
+            }
+        }
+        Some(c)
+    }
+    fn vtx(&self) -> vtx::Vtx {
+        vtx::Vtx {
+            chip: if self.ym { vtx::SoundChip::YM } else { vtx::SoundChip::AY },
+            stereo: vtx_stereo(self.vs),
+            frequency: 1_773_400,
+            player_frequency: self.pf,
+            loop_start_frame: 0,
+            year: 0,
+            title: String::new(),
+            author: String::new(),
+            from: String::new(),
+            tracker: String::new(),
+            comment: String::new(),
+            frame_data: self.data.clone(),
+        }
+    }
+}
+
+struct Disagreement {
+    kind: Kind,
+    /// index of the play call at which it showed (if any)
+    at: Option<usize>,
+    key: &'static str,
+    what: String,
+    implementation: String,
+    expected: String,
+}
+
+const SENTINEL: f64 = 1.0e300;
+
+/// What one `play` call of the real player did.
+struct PlayObs {
+    ret: usize,
+    first: u64,
+    calls: String,
+    buffer_ok: Result<(), String>,
+}
+
+/// Runs the case on the real `Player<RecBackend>`; `Err` = panic message class.
+fn run_real(c: &Case) -> Result<(String, Vec<PlayObs>), String> {
+    let res = catch_unwind(AssertUnwindSafe(|| {
+        let mut p = Player::<RecBackend>::new(c.vtx(), c.rate, c.stereo);
+        let ctor = REC.with(|r| r.borrow().ctor.clone()).unwrap();
+        let mut obs = vec![];
+        for &n in &c.chunks {
+            let (before_len, before_samples) = REC.with(|r| {
+                let r = r.borrow();
+                (r.log.len(), r.samples)
+            });
+            let mut buf = vec![SENTINEL; n];
+            let ret = p.play(&mut buf);
+            let calls = REC.with(|r| encode_calls(&r.borrow().log[before_len..]));
+            let mut ok = Ok(());
+            if ret > n {
+                ok = Err(format!("returned {} for a buffer of {}", ret, n));
+            } else {
+                for (i, v) in buf.iter().enumerate() {
+                    let want = if i >= ret {
+                        SENTINEL
+                    } else if c.stereo {
+                        let k = before_samples + (i / 2) as u64;
+                        if i % 2 == 0 {
+                            left_of(k)
+                        } else {
+                            right_of(k)
+                        }
+                    } else {
+                        left_of(before_samples + i as u64)
+                    };
+                    if *v != want {
+                        ok = Err(format!("slot {} holds {} instead of {}", i, v, want));
+                        break;
+                    }
+                }
+            }
+            obs.push(PlayObs { ret, first: before_samples, calls, buffer_ok: ok });
+        }
+        (format!("{} {}", ctor.0, ctor.1), obs)
+    }));
+    res.map_err(|e| {
+        if let Some(s) = e.downcast_ref::<String>() {
+            s.clone()
+        } else if let Some(s) = e.downcast_ref::<&str>() {
+            s.to_string()
+        } else {
+            "panic".to_string()
+        }
+    })
+}
+
+fn chunk_class(n: usize) -> &'static str {
+    match n {
+        0 => "0",
+        1 => "1",
+        2 => "2",
+        n if n % 2 == 1 && n < 64 => "odd<64",
+        n if n < 64 => "even<64",
+        n if n % 2 == 1 => "odd>=64",
+        _ => "even>=64",
+    }
+}
+
+/// Runs the case on the real code and on the model; first disagreement, adjudicated by the spec.
+fn check_case(model: &mut Model, c: &Case, mut rep: Option<&mut Report>) -> Option<Disagreement> {
+    let real = run_real(c);
+    let mut lines = vec![format!(
+        "new {} {:x} {:x} {:x} {}",
+        c.stereo as u8,
+        c.vs,
+        c.rate,
+        c.pf,
+        if c.data.is_empty() { "-".to_string() } else { hex(&c.data) }
+    )];
+    for n in &c.chunks {
+        lines.push(format!("play {:x}", n));
+    }
+    let ans = model.ask_many(&lines);
+    if let Some(r) = rep.as_deref_mut() {
+        r.eval();
+    }
+    if ans[0] == "panic" {
+        return match real {
+            Err(_) => {
+                if let Some(r) = rep.as_deref_mut() {
+                    r.class("new: player frequency 0 panics (division by zero), as modelled");
+                }
+                None
+            }
+            Ok(_) => Some(Disagreement {
+                at: None,
+                kind: Kind::ModelMismatch,
+                key: "new.panic",
+                what: "Player::new with player_frequency 0".into(),
+                implementation: "returned".into(),
+                expected: "panic (division by zero)".into(),
+            }),
+        };
+    }
+    let (ctor, obs) = match real {
+        Ok(x) => x,
+        Err(msg) => {
+            return Some(Disagreement {
+                at: None,
+                kind: Kind::SpecViolated,
+                key: "panic",
+                what: "the player panicked".into(),
+                implementation: format!("panic: {}", msg),
+                expected: "no panic".into(),
+            })
+        }
+    };
+    let head: Vec<&str> = ans[0].split(' ').collect();
+    let spf = usize::from_str_radix(head[1], 16).unwrap();
+    let mode = MODES[usize::from_str_radix(head[2], 16).unwrap()];
+    let want_ctor = format!("{} {}", if c.ym { "YM" } else { "AY" }, mode);
+    if ctor != want_ctor {
+        return Some(Disagreement {
+            at: None,
+            kind: Kind::ModelMismatch,
+            key: "new.mode",
+            what: "chip/stereo mode handed to the backend".into(),
+            implementation: ctor,
+            expected: want_ctor,
+        });
+    }
+    for (i, o) in obs.iter().enumerate() {
+        let t: Vec<&str> = ans[i + 1].split(' ').collect();
+        // <returned> <first ordinal> <model calls> <spec calls> <spec returned>
+        let m_ret = usize::from_str_radix(t[0], 16).unwrap();
+        let m_first = u64::from_str_radix(t[1], 16).unwrap();
+        let (m_calls, s_calls, s_ret) = (t[2], t[3], t[4]);
+        let n = c.chunks[i];
+        if let Some(r) = rep.as_deref_mut() {
+            r.eval();
+            r.count("buffer_length", chunk_class(n));
+            if spf > 0 {
+                let has_w = o.calls.contains('w');
+                let skip = o.calls.contains('w') && !o.calls.contains("w0d");
+                let ended = o.ret < if c.stereo { n / 2 * 2 } else { n };
+                r.class(format!(
+                    "{} len={} frame-start-inside={} r13-skipped={} end-reached={} spf={}",
+                    if c.stereo { "stereo" } else { "mono" },
+                    chunk_class(n),
+                    has_w as u8,
+                    skip as u8,
+                    ended as u8,
+                    match spf {
+                        1 => "1",
+                        2..=9 => "2-9",
+                        10..=99 => "10-99",
+                        _ => ">=100",
+                    }
+                ));
+            }
+        }
+        let decided = spf > 0;
+        let at = format!("play call #{} (buffer length {})", i, n);
+        let at_idx = Some(i);
+        if decided && (o.calls != s_calls || format!("{:x}", o.ret) != s_ret) {
+            let (key, imp, exp) = if o.calls != s_calls {
+                ("play.calls", o.calls.clone(), s_calls.to_string())
+            } else {
+                ("play.returned", format!("{:x}", o.ret), s_ret.to_string())
+            };
+            return Some(Disagreement {
+                at: at_idx,
+                kind: Kind::SpecViolated,
+                key,
+                what: format!("{}: backend calls / returned count differ from the schedule spec", at),
+                implementation: imp,
+                expected: exp,
+            });
+        }
+        if let Err(e) = &o.buffer_ok {
+            return Some(Disagreement {
+                at: at_idx,
+                kind: Kind::SpecViolated,
+                key: "play.buffer",
+                what: format!("{}: buffer contents are not the samples of the corresponding next_sample calls", at),
+                implementation: e.clone(),
+                expected: "slot i = i-th sample (pairs in stereo), the rest untouched".into(),
+            });
+        }
+        if o.calls != m_calls || o.ret != m_ret || o.first != m_first {
+            return Some(Disagreement {
+                at: at_idx,
+                kind: Kind::ModelMismatch,
+                key: "play.model",
+                what: format!("{}: differs from the Lean model", at),
+                implementation: format!("{:x} {:x} {}", o.ret, o.first, o.calls),
+                expected: format!("{:x} {:x} {}", m_ret, m_first, m_calls),
+            });
+        }
+    }
+    None
+}
+
+fn gen_r13(r: &mut Rng) -> u8 {
+    match r.below(8) {
+        0..=2 => 0xFF,
+        3 => 0xF0 + r.below(15) as u8,
+        4 => 0xFE,
+        5 => 0x7F,
+        _ => r.u8(),
+    }
+}
+
+fn gen_data(r: &mut Rng, frames: usize) -> Vec<u8> {
+    let mut d = Vec::with_capacity(frames * 14 + 13);
+    for _ in 0..frames {
+        for reg in 0..14 {
+            d.push(if reg == 13 { gen_r13(r) } else if r.chance(1, 6) { 0xFF } else { r.u8() });
+        }
+    }
+    if r.chance(1, 5) {
+        let extra = r.range(1, 13) as usize;
+        d.extend(r.bytes(extra));
+    }
+    d
+}
+
+fn gen_chunks(r: &mut Rng, stereo: bool, total: usize) -> Vec<usize> {
+    // `total` = samples per channel the log yields; offer a bit more so that the end is crossed
+    let mut chunks = vec![];
+    let mut offered = 0usize;
+    let style = r.below(5);
+    while offered <= total && chunks.len() < 400 {
+        let n = match style {
+            0 => 1,
+            1 => r.range(0, 3) as usize,
+            2 => r.range(0, 40) as usize,
+            3 => [1usize, 3, 5, 7, 2, 9][r.below(6) as usize],
+            _ => r.range(0, (total as u64).max(4)) as usize,
+        };
+        let n = if style == 0 && stereo { r.range(1, 3) as usize } else { n };
+        chunks.push(n);
+        offered += if stereo { n / 2 } else { n };
+    }
+    // two more calls after the end
+    chunks.push(r.range(0, 9) as usize);
+    chunks.push(r.range(1, 64) as usize);
+    chunks
+}
+
+fn gen_case(r: &mut Rng) -> Case {
+    let stereo = r.bool();
+    let frames = match r.below(8) {
+        0 => 0,
+        1 => 1,
+        _ => r.range(1, 10) as usize,
+    };
+    let pf = match r.below(10) {
+        0 => 50,
+        1 => 1,
+        2 => 255,
+        3 => 0,
+        _ => r.range(1, 255) as u8,
+    };
+    let spf = match r.below(10) {
+        0 => 0,
+        1 => 1,
+        2 | 3 => r.range(2, 5),
+        4..=7 => r.range(2, 40),
+        _ => r.range(40, 900),
+    } as usize;
+    let pfz = pf as usize;
+    let rate = if pfz == 0 {
+        r.range(0, 48000) as usize
+    } else if spf == 0 {
+        r.below(pfz as u64) as usize
+    } else {
+        spf * pfz + r.below(pfz as u64) as usize
+    };
+    let data = gen_data(r, frames);
+    let total = if spf == 0 { 12 } else { (data.len() / 14) * spf };
+    let chunks = gen_chunks(r, stereo, total);
+    Case { stereo, vs: r.below(7) as u8, ym: r.bool(), rate, pf, data, chunks }
+}
+
+/// Greedy shrinking; every candidate is re-run on the real code and re-adjudicated.
+fn shrink(model: &mut Model, c: &Case, key: &str) -> Case {
+    let fails = |model: &mut Model, c: &Case| matches!(check_case(model, c, None), Some(d) if d.key == key);
+    let mut cur = c.clone();
+    // cut the call list right after the call at which the disagreement shows
+    if let Some(Disagreement { at: Some(i), key: k, .. }) = check_case(model, &cur, None) {
+        if k == key && i + 1 < cur.chunks.len() {
+            let mut a = cur.clone();
+            a.chunks.truncate(i + 1);
+            if fails(model, &a) {
+                cur = a;
+            }
+        }
+    }
+    let mut progress = true;
+    let mut budget = 1500;
+    while progress && budget > 0 {
+        progress = false;
+        let mut cands: Vec<Case> = vec![];
+        // fewer frames (drop from the end, then from the start)
+        if cur.data.len() >= 14 {
+            let mut a = cur.clone();
+            a.data.truncate((cur.data.len() / 14 - 1) * 14);
+            cands.push(a);
+            let mut b = cur.clone();
+            b.data.drain(0..14);
+            cands.push(b);
+        }
+        if cur.data.len() % 14 != 0 {
+            let mut a = cur.clone();
+            a.data.truncate(cur.data.len() / 14 * 14);
+            cands.push(a);
+        }
+        // smaller spf
+        if cur.pf > 0 && cur.rate / cur.pf as usize > 1 {
+            let spf = cur.rate / cur.pf as usize;
+            for s in [1usize, 2, spf / 2, spf - 1] {
+                if s >= 1 && s < spf {
+                    let mut a = cur.clone();
+                    a.rate = s * cur.pf as usize;
+                    cands.push(a);
+                }
+            }
+        }
+        if cur.pf > 1 {
+            let mut a = cur.clone();
+            let spf = cur.rate / cur.pf as usize;
+            a.pf = 1;
+            a.rate = spf;
+            cands.push(a);
+        }
+        // fewer / merged / smaller chunks
+        if cur.chunks.len() > 1 {
+            let mut a = cur.clone();
+            a.chunks.pop();
+            cands.push(a);
+            let mut b = cur.clone();
+            b.chunks.remove(0);
+            cands.push(b);
+            let mut m = cur.clone();
+            let x = m.chunks.remove(0);
+            m.chunks[0] += x;
+            cands.push(m);
+        }
+        for i in 0..cur.chunks.len().min(8) {
+            if cur.chunks[i] > 1 {
+                let mut a = cur.clone();
+                a.chunks[i] /= 2;
+                cands.push(a);
+                let mut b = cur.clone();
+                b.chunks[i] -= 1;
+                cands.push(b);
+            }
+        }
+        // simpler bytes
+        if cur.data.iter().any(|b| *b != 0) {
+            let mut a = cur.clone();
+            for (i, b) in a.data.iter_mut().enumerate() {
+                if i % 14 != 13 {
+                    *b = 0;
+                }
+            }
+            if a != cur {
+                cands.push(a);
+            }
+        }
+        if cur.stereo {
+            let mut a = cur.clone();
+            a.stereo = false;
+            cands.push(a);
+        }
+        if cur.stereo && cur.vs != 0 {
+            let mut a = cur.clone();
+            a.vs = 0;
+            cands.push(a);
+        }
+        if cur.ym {
+            let mut a = cur.clone();
+            a.ym = false;
+            cands.push(a);
+        }
+        for cand in cands {
+            budget -= 1;
+            if fails(model, &cand) {
+                cur = cand;
+                progress = true;
+                break;
+            }
+            if budget == 0 {
+                break;
+            }
+        }
+    }
+    cur
+}
+
+fn report(model: &mut Model, rep: &mut Report, c: &Case, d: Disagreement) {
+    let key = format!("C20/{}", d.key);
+    if rep.has_key(&key) {
+        rep.count("repeat_violations", key);
+        return;
+    }
+    let small = shrink(model, c, d.key);
+    let d2 = check_case(model, &small, None).unwrap_or(d);
+    rep.violation(Violation {
+        kind: d2.kind,
+        key,
+        what: format!("{} — {}: real code {} / expected {}", small.text(), d2.what, d2.implementation, d2.expected),
+        correspondence: "corr.C20.player (Model.Vtx.play over the recording backend vs vtx::player::Player::play)".into(),
+        case: J::obj(vec![("text", J::s(small.text()))]),
+        implementation: d2.implementation.clone(),
+        expected: d2.expected.clone(),
+    });
+}
+
+// ---------------------------------------------------------------- real AymPrecise: stream equality
+
+fn precise_stream(c: &Case, chunks: &[usize]) -> Result<(Vec<u64>, Vec<usize>), String> {
+    catch_unwind(AssertUnwindSafe(|| {
+        let mut p = Player::<aym::AymPrecise>::new(c.vtx(), c.rate, c.stereo);
+        let mut out = vec![];
+        let mut rets = vec![];
+        for &n in chunks {
+            let mut buf = vec![SENTINEL; n];
+            let ret = p.play(&mut buf);
+            rets.push(ret);
+            out.extend(buf[..ret.min(n)].iter().map(|x| x.to_bits()));
+        }
+        (out, rets)
+    }))
+    .map_err(|_| "panic".to_string())
+}
+
+/// One-shot run vs. the chunked run on the real AymPrecise; total length against the spec.
+fn check_precise(model: &mut Model, c: &Case, mut rep: Option<&mut Report>) -> Option<Disagreement> {
+    let spf = c.rate / c.pf as usize;
+    let total_units = (c.data.len() / 14) * spf;
+    let ch = if c.stereo { 2 } else { 1 };
+    let one = precise_stream(c, &[total_units * ch + 7]);
+    let many = precise_stream(c, &c.chunks);
+    // what the spec says the total is (driver: one big play)
+    let lines = vec![
+        format!("new {} {:x} {:x} {:x} {}", c.stereo as u8, c.vs, c.rate, c.pf, if c.data.is_empty() { "-".to_string() } else { hex(&c.data) }),
+        format!("play {:x}", total_units * ch + 7),
+    ];
+    let ans = model.ask_many(&lines);
+    let spec_total = usize::from_str_radix(ans[1].split(' ').nth(4).unwrap(), 16).unwrap();
+    if let Some(r) = rep.as_deref_mut() {
+        r.eval();
+    }
+    let (one, many) = match (one, many) {
+        (Ok(a), Ok(b)) => (a, b),
+        _ => {
+            return Some(Disagreement {
+                at: None,
+                kind: Kind::SpecViolated,
+                key: "precise.panic",
+                what: "PrecisePlayer panicked".into(),
+                implementation: "panic".into(),
+                expected: "no panic".into(),
+            })
+        }
+    };
+    if one.0.len() != spec_total {
+        return Some(Disagreement {
+            at: None,
+            kind: Kind::SpecViolated,
+            key: "precise.total",
+            what: "total number of samples of a one-shot PrecisePlayer run".into(),
+            implementation: format!("{}", one.0.len()),
+            expected: format!("{}", spec_total),
+        });
+    }
+    // the chunked run offers at least as much; it must produce the same stream
+    let offered: usize = c.chunks.iter().map(|n| if c.stereo { n / 2 * 2 } else { *n }).sum();
+    let expect_len = offered.min(spec_total);
+    if many.0.len() != expect_len || many.0[..] != one.0[..expect_len] {
+        let first = many.0.iter().zip(one.0.iter()).position(|(a, b)| a != b);
+        return Some(Disagreement {
+            at: None,
+            kind: Kind::SpecViolated,
+            key: "precise.chunking",
+            what: "sample stream of the chunked PrecisePlayer run differs from the one-shot run".into(),
+            implementation: format!("length {} first difference at {:?}", many.0.len(), first),
+            expected: format!("the first {} samples of the one-shot stream, bit for bit", expect_len),
+        });
+    }
+    if let Some(r) = rep.as_deref_mut() {
+        let nonsilent = one.0.iter().any(|b| f64::from_bits(*b).abs() > 1e-6);
+        if nonsilent {
+            r.class(format!(
+                "precise {} rate={} chunks={}",
+                if c.stereo { "stereo" } else { "mono" },
+                c.rate,
+                match c.chunks.len() {
+                    0..=3 => "<=3",
+                    4..=30 => "4-30",
+                    _ => ">30",
+                }
+            ));
+        }
+        r.count("precise_rates", format!("{}", c.rate));
+    }
+    None
+}
+
+fn gen_precise(r: &mut Rng) -> Case {
+    let stereo = r.bool();
+    let frames = r.range(1, 5) as usize;
+    let rate = *r.pick(&[44100usize, 48000, 22050, 32000, 96000, 8000]);
+    let pf = *r.pick(&[50u8, 100, 60, 200]);
+    let mut data = vec![];
+    for _ in 0..frames {
+        // audible settings: tone periods, mixer, volumes / envelope
+        let tp = [r.range(20, 600) as u16, r.range(20, 600) as u16, r.range(20, 4000) as u16];
+        let f = [
+            tp[0] as u8, (tp[0] >> 8) as u8, tp[1] as u8, (tp[1] >> 8) as u8, tp[2] as u8, (tp[2] >> 8) as u8,
+            r.below(32) as u8, r.below(64) as u8, r.below(32) as u8, r.below(32) as u8, r.below(32) as u8,
+            r.range(1, 40) as u8, 0,
+            if r.bool() { 0xFF } else { r.below(16) as u8 },
+        ];
+        data.extend_from_slice(&f);
+    }
+    let spf = rate / pf as usize;
+    let chunks = gen_chunks(r, stereo, frames * spf);
+    Case { stereo, vs: r.below(7) as u8, ym: r.bool(), rate, pf, data, chunks }
+}
+
+fn shrink_precise(model: &mut Model, c: &Case, key: &str) -> Case {
+    let fails = |model: &mut Model, c: &Case| matches!(check_precise(model, c, None), Some(d) if d.key == key);
+    let mut cur = c.clone();
+    let mut budget = 120;
+    loop {
+        let mut cands = vec![];
+        if !cur.chunks.is_empty() {
+            let mut a = cur.clone();
+            a.chunks.clear();
+            cands.push(a);
+        }
+        if cur.data.len() > 14 {
+            let mut a = cur.clone();
+            a.data.truncate(cur.data.len() - 14);
+            cands.push(a);
+        }
+        if cur.chunks.len() > 1 {
+            let mut a = cur.clone();
+            a.chunks.pop();
+            cands.push(a);
+            let mut m = cur.clone();
+            let x = m.chunks.remove(0);
+            m.chunks[0] += x;
+            cands.push(m);
+        }
+        if cur.pf < 200 {
+            let mut a = cur.clone();
+            a.pf = 200;
+            cands.push(a);
+        }
+        let mut moved = false;
+        for cand in cands {
+            if budget == 0 {
+                return cur;
+            }
+            budget -= 1;
+            if fails(model, &cand) {
+                cur = cand;
+                moved = true;
+                break;
+            }
+        }
+        if !moved {
+            return cur;
+        }
+    }
+}
+
+fn report_precise(model: &mut Model, rep: &mut Report, c: &Case, d: Disagreement) {
+    let key = format!("C20/{}", d.key);
+    if rep.has_key(&key) {
+        rep.count("repeat_violations", key);
+        return;
+    }
+    let small = shrink_precise(model, c, d.key);
+    let d2 = check_precise(model, &small, None).unwrap_or(d);
+    let text = small.text().replacen("play", "precise", 1);
+    rep.violation(Violation {
+        kind: d2.kind,
+        key,
+        what: format!("{} — {}: {} / expected {}", text, d2.what, d2.implementation, d2.expected),
+        correspondence: "corr.C20.precise-stream (PrecisePlayer one-shot vs chunked; total vs Spec.totalSamples)".into(),
+        case: J::obj(vec![("text", J::s(text))]),
+        implementation: d2.implementation.clone(),
+        expected: d2.expected.clone(),
+    });
+}
+
+// ---------------------------------------------------------------- Vtx::load transposition
+
+struct BitW {
+    out: Vec<u8>,
+    acc: u64,
+    n: u32,
+}
+impl BitW {
+    fn put(&mut self, v: u32, bits: u32) {
+        self.acc = (self.acc << bits) | v as u64;
+        self.n += bits;
+        while self.n >= 8 {
+            self.out.push((self.acc >> (self.n - 8)) as u8);
+            self.n -= 8;
+        }
+        self.acc &= (1u64 << self.n) - 1;
+    }
+    fn finish(mut self) -> Vec<u8> {
+        if self.n > 0 {
+            let pad = 8 - self.n;
+            self.put(0, pad);
+        }
+        self.out.extend_from_slice(&[0, 0, 0, 0]);
+        self.out
+    }
+}
+
+/// A valid -lh5- stream that stores `data` as literals only: per block the code-length tree is the single
+/// symbol 10 (= length 8), so the 256 literal codes are the byte values themselves; no match offsets.
+fn lh5_literal(data: &[u8]) -> Vec<u8> {
+    let mut w = BitW { out: vec![], acc: 0, n: 0 };
+    for block in data.chunks(0x4000) {
+        w.put(block.len() as u32, 16);
+        w.put(0, 5);
+        w.put(10, 5);
+        w.put(256, 9);
+        w.put(0, 4);
+        w.put(0, 4);
+        for b in block {
+            w.put(*b as u32, 8);
+        }
+    }
+    w.finish()
+}
+
+fn vtx_file(ym: bool, stereo: u8, pf: u8, reg_major: &[u8]) -> Vec<u8> {
+    let mut f = vec![];
+    f.extend_from_slice(if ym { b"ym" } else { b"ay" });
+    f.push(stereo);
+    f.extend_from_slice(&0u16.to_le_bytes());
+    f.extend_from_slice(&1_773_400u32.to_le_bytes());
+    f.push(pf);
+    f.extend_from_slice(&1999u16.to_le_bytes());
+    f.extend_from_slice(&(reg_major.len() as u32).to_le_bytes());
+    f.extend_from_slice(b"t\0a\0f\0k\0c\0");
+    f.extend_from_slice(&lh5_literal(reg_major));
+    f
+}
+
+fn check_transpose(model: &mut Model, reg_major: &[u8], rep: Option<&mut Report>) -> Option<Disagreement> {
+    let file = vtx_file(false, 1, 50, reg_major);
+    let loaded = catch_unwind(AssertUnwindSafe(|| vtx::Vtx::load(std::io::Cursor::new(file))));
+    let got = match loaded {
+        Ok(Ok(v)) => v.frame_data,
+        Ok(Err(e)) => {
+            return Some(Disagreement {
+                at: None,
+                kind: Kind::ModelMismatch,
+                key: "load.error",
+                what: "Vtx::load rejected a well-formed file built by the harness".into(),
+                implementation: format!("{}", e),
+                expected: "Ok".into(),
+            })
+        }
+        Err(_) => {
+            return Some(Disagreement {
+                at: None,
+                kind: Kind::SpecViolated,
+                key: "load.panic",
+                what: "Vtx::load panicked on a well-formed file".into(),
+                implementation: "panic".into(),
+                expected: "Ok".into(),
+            })
+        }
+    };
+    let ans = model.ask(&format!("transpose {}", if reg_major.is_empty() { "-".to_string() } else { hex(reg_major) }));
+    let t: Vec<&str> = ans.split(' ').collect();
+    let got_hex = if got.is_empty() { "-".to_string() } else { hex(&got) };
+    if let Some(r) = rep {
+        r.eval();
+        let n = reg_major.len() / 14;
+        if n >= 2 && got != reg_major {
+            r.class(format!("transpose frames={}", if n < 16 { n.to_string() } else { format!("{}x", n / 16 * 16) }));
+        }
+        r.count("transpose_frames", match n {
+            0 => "0",
+            1 => "1",
+            2..=15 => "2-15",
+            16..=255 => "16-255",
+            _ => ">=256",
+        });
+    }
+    if got_hex != t[1] {
+        return Some(Disagreement {
+            at: None,
+            kind: Kind::SpecViolated,
+            key: "load.transpose",
+            what: format!("frame-major data after Vtx::load of {} frames", reg_major.len() / 14),
+            implementation: got_hex,
+            expected: t[1].to_string(),
+        });
+    }
+    if got_hex != t[0] {
+        return Some(Disagreement {
+            at: None,
+            kind: Kind::ModelMismatch,
+            key: "load.transpose.model",
+            what: "frame-major data differs from the Lean model".into(),
+            implementation: got_hex,
+            expected: t[0].to_string(),
+        });
+    }
+    None
+}
+
+fn report_transpose(model: &mut Model, rep: &mut Report, reg_major: &[u8], d: Disagreement) {
+    let key = format!("C20/{}", d.key);
+    if rep.has_key(&key) {
+        rep.count("repeat_violations", key);
+        return;
+    }
+    // shrink: fewer frames, then simpler bytes (index pattern makes the misplaced byte visible)
+    let mut cur = reg_major.to_vec();
+    loop {
+        let n = cur.len() / 14;
+        if n <= 1 {
+            break;
+        }
+        let cand: Vec<u8> = (0..(n - 1) * 14).map(|i| i as u8).collect();
+        if matches!(check_transpose(model, &cand, None), Some(ref x) if x.key == d.key) {
+            cur = cand;
+        } else {
+            break;
+        }
+    }
+    let d2 = check_transpose(model, &cur, None).unwrap_or(d);
+    let text = format!("transpose data={}", if cur.is_empty() { "-".to_string() } else { hex(&cur) });
+    rep.violation(Violation {
+        kind: d2.kind,
+        key,
+        what: format!("{} frames: {}: real {} / expected {}", cur.len() / 14, d2.what, d2.implementation, d2.expected),
+        correspondence: "corr.C20.transpose (Model.Vtx.transpose vs Vtx::load)".into(),
+        case: J::obj(vec![("text", J::s(text))]),
+        implementation: d2.implementation.clone(),
+        expected: d2.expected.clone(),
+    });
+}
+
+pub fn run(o: &Opts) -> Report {
     let mut rep = Report::new("C20");
-    rep.notes.push("not built yet".into());
+    rep.rule = "random register logs (0-10 frames, R13 biased to 0xFF / 0xF0-0xFE, sometimes a trailing partial frame) x \
+(rate, player frequency) giving spf 0..900 x mono/stereo x random lists of play() buffer lengths (styles: all 1, 0-3, \
+0-40, small odd, large; two more calls after the end) on vtx::player::Player over a recording AymBackend: every play \
+call's backend call log, returned count and buffer contents are compared with the Lean model and the schedule spec; \
+plus PrecisePlayer (real AymPrecise) one-shot vs chunked streams compared bit for bit and its total against the spec; \
+plus Vtx::load of harness-built files (literal-only LH5) against the transposition model/spec. \
+distinct = (mono/stereo, buffer-length class, frame start inside the call, R13 skipped, end reached, spf class) per \
+play call with spf>0, non-silent precise stream classes, transposition frame counts"
+        .into();
+    let mut model = Model::spawn(&o.model, "C20");
+
+    if let Some(text) = &o.replay {
+        rep.sample(J::s(text.clone()));
+        if let Some(rest) = text.strip_prefix("transpose data=") {
+            let d = if rest.trim() == "-" { vec![] } else { unhex(rest) };
+            if let Some(x) = check_transpose(&mut model, &d, Some(&mut rep)) {
+                report_transpose(&mut model, &mut rep, &d, x);
+            }
+        } else if text.starts_with("precise ") {
+            if let Some(c) = Case::parse(&text.replacen("precise", "play", 1)) {
+                if let Some(d) = check_precise(&mut model, &c, Some(&mut rep)) {
+                    report_precise(&mut model, &mut rep, &c, d);
+                }
+            }
+        } else if let Some(c) = Case::parse(text) {
+            if let Some(d) = check_case(&mut model, &c, Some(&mut rep)) {
+                report(&mut model, &mut rep, &c, d);
+            }
+        } else {
+            rep.notes.push("unparsable replay case".into());
+        }
+        return rep;
+    }
+
+    // 1. recording backend
+    let mut rng = Rng::new(o.seed);
+    let logs = o.n(1500, 60_000);
+    let mut pending: Option<(Case, Disagreement)> = None;
+    for i in 0..logs {
+        let mut r = rng.fork();
+        let c = gen_case(&mut r);
+        let spf = if c.pf == 0 { 0 } else { c.rate / c.pf as usize };
+        rep.count("channels", if c.stereo { "stereo" } else { "mono" });
+        rep.count("spf", match spf {
+            0 => "0",
+            1 => "1",
+            2..=9 => "2-9",
+            10..=99 => "10-99",
+            _ => ">=100",
+        });
+        rep.count("frames", format!("{}", c.data.len() / 14));
+        if c.pf == 0 {
+            rep.count("player_frequency", "0 (panic)");
+        }
+        if i < 2 {
+            rep.sample(J::s(c.text()));
+        }
+        if let Some(d) = check_case(&mut model, &c, Some(&mut rep)) {
+            if d.kind == Kind::ModelMismatch {
+                // the spec does not decide this input (spf = 0 or constructor details): keep it aside and go
+                // on looking for an input on which the real code contradicts the spec
+                rep.count("undecided_mismatches", d.key);
+                if pending.is_none() {
+                    pending = Some((c.clone(), d));
+                }
+            } else {
+                report(&mut model, &mut rep, &c, d);
+            }
+        }
+    }
+    if let Some((c, d)) = pending {
+        if rep.violations.iter().any(|v| v.kind == Kind::SpecViolated && v.key.starts_with("C20/play.")) {
+            rep.notes.push(format!(
+                "code/model mismatches on inputs the spec does not decide ({}) are attributed to the spec violation(s) reported",
+                d.key
+            ));
+        } else {
+            report(&mut model, &mut rep, &c, d);
+        }
+    }
+    // 2. real AymPrecise
+    let mut rng = Rng::new(o.seed ^ 0x20);
+    for i in 0..o.n(60, 3000) {
+        let mut r = rng.fork();
+        let c = gen_precise(&mut r);
+        if i == 0 {
+            rep.sample(J::s(c.text().replacen("play", "precise", 1)));
+        }
+        if let Some(d) = check_precise(&mut model, &c, Some(&mut rep)) {
+            report_precise(&mut model, &mut rep, &c, d);
+        }
+    }
+    // 3. transposition through Vtx::load
+    let mut rng = Rng::new(o.seed ^ 0x2020);
+    let mut sizes: Vec<usize> = (0..=20).collect();
+    sizes.extend_from_slice(&[31, 32, 33, 64, 100, 255, 256, 257, 1000, 1171, 2500]);
+    for _ in 0..o.n(40, 2000) {
+        sizes.push(rng.range(0, 400) as usize);
+    }
+    for (i, n) in sizes.iter().enumerate() {
+        let d: Vec<u8> = if i % 2 == 0 { (0..n * 14).map(|k| (k * 7 + k / 256) as u8).collect() } else { rng.bytes(n * 14) };
+        if let Some(x) = check_transpose(&mut model, &d, Some(&mut rep)) {
+            report_transpose(&mut model, &mut rep, &d, x);
+        }
+    }
+    rep.extra.push(("logs".into(), J::I(logs as i64)));
+    rep.extra.push(("model_requests".into(), J::I(model.requests as i64)));
     rep
 }
